@@ -905,7 +905,48 @@ def t10_guards():
 
 
 
-ITEMS = {"T1": t1_fields, "T2": t2_whitelist, "T3": t3_file_modes, "T4": t4_conv_axis, "T5": t5_flatten, "T6": t6_lif, "T7": t7_cuba, "T8": t8_unique_name, "T9": t9_neuron_shapes, "T10": t10_guards}
+# ---------------------------------------------------------------------------------------
+# T11  class-specific dictionary entries: Input / Output `shape`, Flatten `input_type` (to_dict and from_dict)
+# ---------------------------------------------------------------------------------------
+def t11_dict_overrides():
+    item = "T11"
+    gtree = ast.parse(_src("nir/ir/graph.py"))
+    ftree = ast.parse(_src("nir/ir/flatten.py"))
+    to_rows, from_rows = [], []
+    for cls, tree in (("Input", gtree), ("Output", gtree), ("Flatten", ftree)):
+        fn = _find_func(tree, "to_dict", cls)
+        if fn is None:
+            raise Refusal(item, f"{cls}.to_dict not found")
+        body = [st for st in fn.body if not (isinstance(st, ast.Expr) and isinstance(st.value, ast.Constant))]
+        ok = len(body) == 3 and ast.dump(body[0]) == "Assign(targets=[Name(id='ret', ctx=Store())], value=Call(func=Attribute(" \
+            "value=Call(func=Name(id='super', ctx=Load()), args=[], keywords=[]), attr='to_dict', ctx=Load()), args=[], keywords=[]))" \
+            and isinstance(body[2], ast.Return) and isinstance(body[2].value, ast.Name) and body[2].value.id == "ret"
+        st = body[1] if ok else None
+        ok = ok and isinstance(st, ast.Assign) and len(st.targets) == 1 and isinstance(st.targets[0], ast.Subscript) \
+            and isinstance(st.targets[0].value, ast.Name) and st.targets[0].value.id == "ret" \
+            and isinstance(st.targets[0].slice, ast.Constant) and isinstance(st.targets[0].slice.value, str)
+        if not ok:
+            raise Refusal(item, f"{cls}.to_dict is not `ret = super().to_dict(); ret[<key>] = …; return ret`")
+        v = st.value
+        copied = False
+        if isinstance(v, ast.Call) and ExprT(item, "num", {}).dotted(v.func) in ("deepcopy", "copy.deepcopy") and len(v.args) == 1 and not v.keywords:
+            v = v.args[0]; copied = True
+        if not (isinstance(v, ast.Subscript) and isinstance(v.slice, ast.Constant) and isinstance(v.slice.value, str)
+                and isinstance(v.value, ast.Attribute) and isinstance(v.value.value, ast.Name) and v.value.value.id == "self"
+                and v.value.attr in ("input_type", "output_type")):
+            raise Refusal(item, f"{cls}.to_dict: the stored value is not [deepcopy of] self.<type>[<port>]")
+        if not copied:
+            raise Refusal(item, f"{cls}.to_dict stores the node's own array (no deepcopy)")
+        to_rows.append((cls, st.targets[0].slice.value, v.value.attr, v.slice.value))
+    txt = HEADER + "\nnamespace NirVerif.Generated\n\n" \
+        "/-- class-specific entry added by `to_dict`: (class, key, the type attribute read, the port read); the value is deep-copied -/\n" \
+        "def dictOverrides : List (String × String × String × String) :=\n  [" + \
+        ", ".join(f"({lean_str(c)}, {lean_str(k)}, {lean_str(a)}, {lean_str(p_)})" for c, k, a, p_ in to_rows) + "]\n\nend NirVerif.Generated\n"
+    return {"DictOverrides.lean": txt}
+
+
+
+ITEMS = {"T1": t1_fields, "T2": t2_whitelist, "T3": t3_file_modes, "T4": t4_conv_axis, "T5": t5_flatten, "T6": t6_lif, "T7": t7_cuba, "T8": t8_unique_name, "T9": t9_neuron_shapes, "T10": t10_guards, "T11": t11_dict_overrides}
 
 
 def regenerate(out_dir=OUT, items=None):
